@@ -802,10 +802,19 @@ class PteraTransformer(NodeTransformer):
         )
 
     def visit_With(self, node):
+        if len(node.items) > 1:
+            # ``with A as x, B as y`` is ``with A as x`` around ``with B as y``:
+            # x is bound, hence reported, before B is evaluated
+            inner = ast.copy_location(
+                ast.With(items=node.items[1:], body=node.body), node
+            )
+            node = ast.copy_location(
+                ast.With(items=node.items[:1], body=[inner]), node
+            )
+        (item,) = node.items
         new_body = []
-        for item in node.items:
-            if item.optional_vars is not None:
-                new_body.extend(self.generate_interactions(item.optional_vars))
+        if item.optional_vars is not None:
+            new_body.extend(self.generate_interactions(item.optional_vars))
         new_body.extend(self.visit_body(node.body))
         return ast.copy_location(
             ast.With(
@@ -814,7 +823,6 @@ class PteraTransformer(NodeTransformer):
                         context_expr=self.visit(item.context_expr),
                         optional_vars=item.optional_vars,
                     )
-                    for item in node.items
                 ],
                 body=new_body,
             ),
